@@ -3,4 +3,4 @@ from . import _common
 
 
 def run(out):
-    _common.run(out, 'C05', x=[dict(fn=progs2.c05_corpus, name='c05')], s_props=['C05'])
+    _common.run(out, 'C05', x=[dict(fn=progs2.c05_corpus, name='c05', compile_violation=True)], s_props=['C05'])
